@@ -22,24 +22,29 @@ V0_NOTE = ("Theorems cover every type expression and every value (induction, no 
 
 PROPS = {
     "C01": {
-        "families": [{"name": "ty"}],
+        "families": [{"name": "ty"}, {"name": "leaves"}],
         "tags": {"rt": "direct", "dec-model": "indirect", "abs-diff": "indirect", "enc-outcome": "indirect"},
         "rule": "built-in catalogue (about 110 type expressions: every constructor, arities 1-8, byte containers, arrays incl. [T;0], "
                 "nested depth <= 3, chrono/uuid/bignum leaves) x boundary-biased values; impl round trip (oracle), model decode of the "
-                "impl bytes, model bytes; distinct = distinct (type, canonical value) with an encoding of >= 2 bytes",
+                "impl bytes, model bytes; leaves: the ten chrono / big-number leaf types through their wire descriptions (a tuple of model "
+                "primitives or one primitive, components taken through the library type's accessors): model decode of the impl bytes = the "
+                "value's components; distinct = distinct (type, canonical value) with an encoding of >= 2 bytes",
         "trusted": MODEL_TRUST,
         "assumptions": ["TZ=UTC", "Rust types are instantiated to depth 3 (the theorems have no depth bound)"],
-        "partial": "chrono/BigDecimal/BigInt/Tz leaves are outside the model: implementation-side round-trip oracle only",
+        "partial": "chrono/BigDecimal/BigInt/Tz leaves: the theorem applies to their wire descriptions (tuples of primitives); the maps "
+                   "between library objects and components (calendar validity, zone names, decimal parsing) are library code outside the model",
         "level_text": "Proof: decode(encode v ++ t) = (v, t) for every type expression over the built-in vocabulary and every value, by "
                       "induction on the value (rt_all), at any source state and for any continuation; leaf codecs (fixed-width, bool, char, "
                       "String, DeduplicatedString, Duration, byte arrays, Uuid, Weekday, Month, FixedOffset) proved individually (rt_prim); "
-                      "lifted to the faithful DeserializationContext transcription by the refinement theorem. The model is tied to the code "
-                      "by the ty family on every run.",
-        "level_note": "Trusted: Lean kernel; hand-written model; correspondence harness. Outside the model: chrono calendar conversions, Tz "
-                      "names, Local offset, BigDecimal Display/FromStr, BigInt byte conversion, hash iteration order; UTF-8 validity is a hypothesis.",
+                      "lifted to the faithful DeserializationContext transcription by the refinement theorem. The chrono / big-number "
+                      "leaves are covered through their wire descriptions (tuples of primitives): leaf_description_roundtrip. The model is "
+                      "tied to the code by the ty and leaves families on every run.",
+        "level_note": "Trusted: Lean kernel; hand-written model; correspondence harness. Outside the model: the library maps between chrono / "
+                      "big-number objects and their wire components (calendar validity, Tz names, Local offset, BigDecimal Display/FromStr, "
+                      "BigInt byte conversion), hash iteration order; UTF-8 validity is a hypothesis.",
     },
     "C05": {
-        "families": [{"name": "raw", "release": True}, {"name": "decl", "release": True}, {"name": "hist"}],
+        "families": [{"name": "raw", "release": True}, {"name": "decl", "release": True}, {"name": "hist"}, {"name": "leaves", "release": True}],
         "release_too": True,
         "tags": {"dec-panic": "direct", "dec-slow": "direct", "dec-alloc": "direct", "panic-unpredicted": "indirect",
                  "model-panics": "indirect", "abs-diff": "indirect"},
@@ -49,8 +54,9 @@ PROPS = {
                 "release builds; a counting allocator and a progress file attribute aborts, hangs and stack overflows. "
                 "distinct = distinct (type, bytes) on which the implementation returns Ok",
         "trusted": MODEL_TRUST,
-        "partial": "stack exhaustion, allocator aborts and time of the real code are measured, not modelled; chrono / bignum leaves and the two "
-                   "other BinaryInput implementations are outside the decoder model; zero-width element sequences excluded (DESIGN 9.7)",
+        "partial": "stack exhaustion, allocator aborts and time of the real code are measured, not modelled; chrono / bignum leaves are in the decoder model through "
+                   "their wire descriptions only (family leaves; the library constructors behind them are measured), the two "
+                   "other BinaryInput implementations are outside it; zero-width element sequences excluded (DESIGN 9.7)",
         "level_text": "Proof: for every environment passing the decidable check envDecOKb (evaluated by the driver on the generated "
                       "declarations), every type over it and EVERY byte string, the decoder — through the faithful transcription of "
                       "DeserializationContext and through the abstract source — returns a value or an error (decode_never_panics): no panic "
@@ -62,7 +68,7 @@ PROPS = {
         "level_note": "Outside the model: see coverage.partial. Trusted: Lean kernel, model, harness; Miri/ASan not used.",
     },
     "C06": {
-        "families": [{"name": "raw"}, {"name": "decl"}, {"name": "hist"}],
+        "families": [{"name": "raw"}, {"name": "decl"}, {"name": "hist"}, {"name": "leaves"}],
         "tags": {"invent": "direct", "abs-diff": "indirect"},
         "rule": "same inputs as C05; relation: implementation Ok(v) implies the reference decoder (runAbs dec) gives exactly v and the same "
                 "consumption. distinct = distinct (type, bytes) accepted by the implementation",
@@ -76,7 +82,7 @@ PROPS = {
         "level_note": "The reference's fidelity to the format is by reading (DESIGN 4.5).",
     },
     "C07": {
-        "families": [{"name": "ty"}, {"name": "decl"}, {"name": "hist"}],
+        "families": [{"name": "ty"}, {"name": "decl"}, {"name": "hist"}, {"name": "leaves"}],
         "tags": {"consume": "direct", "cross-consume": "direct", "dec-model": "indirect", "abs-diff": "indirect"},
         "rule": "every encoded value followed by a random suffix: decode through an explicit context, drain it, compare with the suffix; "
                 "all (writer, reader) version pairs of the generated histories with stored version >= 1 (and version 0 without removals)",
@@ -148,11 +154,13 @@ PROPS = {
         "level_note": "Trusted: Lean kernel, model, harness; the table's fidelity to the documentation is by reading.",
     },
     "C04": {
-        "families": [{"name": "ty"}, {"name": "decl"}, {"name": "altform"}, {"name": "golden"}],
+        "families": [{"name": "ty"}, {"name": "decl"}, {"name": "altform"}, {"name": "golden"}, {"name": "leaves"}],
         "tags": {"bytes": "direct", "enc-err": "direct", "enc-outcome": "direct", "altform": "direct", "container-bytes": "direct",
                  "reject-more": "direct", "golden": "direct", "invent": "indirect", "dec-model": "indirect", "abs-diff": "indirect",
                  "rt": "indirect", "dec-panic": "indirect"},
-        "rule": "implementation bytes == model bytes for every generated value of every catalogue type and declaration; every alternative form "
+        "rule": "implementation bytes == model bytes for every generated value of every catalogue type and declaration, and of the ten "
+                "chrono / big-number leaf types through their wire descriptions (family leaves: bytes == the model's encoding of the value's "
+                "components, accepted inputs decode to the components the model reads); every alternative form "
                 "(unknown-length sequences via the real serialize_iterator with an inexact size hint, every source container) decoded by the "
                 "implementation and the model; the repository's golden file (242 540 bytes written by the original Scala desert) decoded "
                 "by the implementation and by the model to the value documented in the repository's golden test, and re-encoded on both sides. "
@@ -160,7 +168,8 @@ PROPS = {
         "trusted": MODEL_TRUST + ["fidelity of the model's format to Scala desert: reading, the derivation.rs byte vector (proved by evaluation), "
                                   "the golden file decoded by the model on every run (family golden; types mirrored from desert_macro/tests/golden.rs)"],
         "level_text": "Proof: the production rules of the format are theorems about the model's encoder (fixed width big-endian, tags, counts, "
-                      "length prefixes, tuples, header step codes and position bytes), pinned encodings are proved by evaluation, and the "
+                      "length prefixes, tuples, header step codes and position bytes; the NaiveDate / NaiveTime layouts over their wire "
+                      "descriptions, leaf_naiveDate_layout / leaf_naiveTime_layout), pinned encodings are proved by evaluation, and the "
                       "unknown-length form decodes to the value it denotes (rt_seq_unknown). The real writer is compared byte for byte with "
                       "that encoder on every run; a symmetric change of writer and reader breaks the byte comparison, and the model itself is held "
                       "against bytes produced by Scala desert (golden file) on every run.",
